@@ -239,10 +239,7 @@ structure Diag where
   amb : Bool          -- a method name occurs twice at one depth, or an embedded type is reached twice at one depth
   fieldhide : Bool    -- a field name equals a method name somewhere in the closure
   ptrshadow : Bool    -- a pointer-receiver method reached without indirection shares its name with another method
-  seenstr : Bool      -- two distinct types of the closure share their type string
-  protoname : Bool    -- a method is named like a property of Object.prototype
   pkgname : Bool      -- two methods share the name but not the package qualifier
-  namedptr : Bool     -- the type itself is a defined pointer type (has no methods in Go)
 deriving Repr
 
 def diag (s : St) (ptrOf : Nat → Option Nat) (t : Nat) : Diag :=
@@ -262,9 +259,6 @@ def diag (s : St) (ptrOf : Nat → Option Nat) (t : Nat) : Diag :=
   { amb := lv.any (fun l => dupBy ((l.flatMap methodsOf).map (·.1.name)) || dupBy (nextRaw l)) || ents.any (·.multiples),
     fieldhide := fieldNames.any (fun f => names.contains f),
     ptrshadow := ents.any (fun e => !e.indirect && (methodsOf e).any (fun mp => mp.2 && (names.filter (· == mp.1.name)).length ≥ 2)),
-    seenstr := dupBy ((ents.map (·.typ)).eraseDups.map fun i => (s.get i).str),
-    protoname := names.any (fun n => protoProps.contains n),
-    pkgname := allM.any (fun a => allM.any fun b => a.1.name == b.1.name && a.1.pkg != b.1.pkg),
-    namedptr := (s.get t).kind = kPtr ∧ (s.get t).named }
+    pkgname := allM.any (fun a => allM.any fun b => a.1.name == b.1.name && a.1.pkg != b.1.pkg) }
 
 end GV.Spec.GoTypes
